@@ -67,9 +67,69 @@ type hModel struct {
 
 var hmodelCache *hModel
 
-// findHeaderWriters: own handler functions that append a HeaderValue with a constant key taken from a
-// parameter-free constant and a value taken from a string parameter.
-func findHeaderWriter(R *Roles, key string) *headerWriter {
+// headerSite: a place where a response header (corev3.HeaderValue) is built, resolved up to the function
+// in which its key becomes known: a helper that builds the HeaderValue from a key parameter is looked
+// through to its call sites (helper extraction must not change what the rules see).
+type headerSite struct {
+	Fn       *ssa.Function   // function at whose level the site is resolved
+	At       ssa.Instruction // the HeaderValue allocation, or the call of the building helper, inside Fn
+	KeyConst string          // constant key ("" when the key is computed)
+	KeyVal   ssa.Value
+	Val      ssa.Value // header value, in Fn's context
+}
+
+var headerSitesCache []headerSite
+var headerSitesFor *Program
+
+func headerSites(P *Program, R *Roles) []headerSite {
+	if headerSitesFor == P {
+		return headerSitesCache
+	}
+	var out []headerSite
+	paramIdx := func(fn *ssa.Function, v ssa.Value) int {
+		p, ok := resolveCell(stripConv(v)).(*ssa.Parameter)
+		if !ok || p.Parent() != fn {
+			return -1
+		}
+		for i, q := range fn.Params {
+			if q == p {
+				return i
+			}
+		}
+		return -1
+	}
+	var resolve func(fn *ssa.Function, at ssa.Instruction, key, val ssa.Value, depth int)
+	resolve = func(fn *ssa.Function, at ssa.Instruction, key, val ssa.Value, depth int) {
+		if k, isC := constString(key); isC {
+			out = append(out, headerSite{fn, at, k, key, val})
+			return
+		}
+		ki := paramIdx(fn, key)
+		if ki >= 0 && depth > 0 {
+			vi := paramIdx(fn, val)
+			callers := P.CallersOf(fn)
+			n := 0
+			for _, cs := range callers {
+				if !R.InHandler(cs.Parent()) {
+					continue
+				}
+				args := cs.Common().Args
+				if ki >= len(args) {
+					continue
+				}
+				v2 := val
+				if vi >= 0 && vi < len(args) {
+					v2 = args[vi]
+				}
+				n++
+				resolve(cs.Parent(), cs, args[ki], v2, depth-1)
+			}
+			if n > 0 {
+				return
+			}
+		}
+		out = append(out, headerSite{fn, at, "", key, val})
+	}
 	for _, fn := range R.HandlerFuncs {
 		for _, b := range fn.Blocks {
 			for _, ins := range b.Instrs {
@@ -79,27 +139,39 @@ func findHeaderWriter(R *Roles, key string) *headerWriter {
 				}
 				fs := structFieldStores(al)
 				if len(fs["Key"]) != 1 || len(fs["Value"]) != 1 {
+					out = append(out, headerSite{fn, al, "", nil, nil})
 					continue
 				}
-				k, isC := constString(fs["Key"][0])
-				if !isC || k != key {
-					continue
-				}
-				p, isP := stripConv(fs["Value"][0]).(*ssa.Parameter)
-				if !isP {
-					continue
-				}
-				hw := &headerWriter{Fn: fn, KeyName: key, ValIdx: -1, DenyIdx: -1}
-				for i, q := range fn.Params {
-					if q == p {
-						hw.ValIdx = i
-					}
-					if typeID(q.Type()) == idDenied {
-						hw.DenyIdx = i
-					}
-				}
-				return hw
+				resolve(fn, al, fs["Key"][0], fs["Value"][0], 3)
 			}
+		}
+	}
+	headerSitesFor, headerSitesCache = P, out
+	return out
+}
+
+// findHeaderWriter: the function that appends the header with the given constant key taking the value
+// from one of its parameters (setRedirect, setSetCookieHeader).
+func findHeaderWriter(R *Roles, key string) *headerWriter {
+	for _, hs := range headerSites(R.P, R) {
+		if !strings.EqualFold(hs.KeyConst, key) || hs.Val == nil {
+			continue
+		}
+		p, isP := resolveCell(stripConv(hs.Val)).(*ssa.Parameter)
+		if !isP || p.Parent() != hs.Fn {
+			continue
+		}
+		hw := &headerWriter{Fn: hs.Fn, KeyName: key, ValIdx: -1, DenyIdx: -1}
+		for i, q := range hs.Fn.Params {
+			if q == p {
+				hw.ValIdx = i
+			}
+			if typeID(q.Type()) == idDenied {
+				hw.DenyIdx = i
+			}
+		}
+		if hw.ValIdx >= 0 && hw.DenyIdx >= 0 {
+			return hw
 		}
 	}
 	return nil
@@ -282,17 +354,10 @@ func getHModel(P *Program) *hModel {
 			miss("cb.tables")
 		}
 	}
-	// callback location: a HeaderValue with key "location" built in the callback itself or via the writer
-	for _, b := range cb.Blocks {
-		for _, ins := range b.Instrs {
-			if al, ok := ins.(*ssa.Alloc); ok && typeID(al.Type()) == pkgEnvoyCore+".HeaderValue" {
-				fs := structFieldStores(al)
-				if len(fs["Key"]) == 1 && len(fs["Value"]) == 1 {
-					if k, isC := constString(fs["Key"][0]); isC && k == "location" {
-						m.CbLocation = fs["Value"][0]
-					}
-				}
-			}
+	// callback location: a header site with key "location" resolved in the callback itself, or via the writer
+	for _, hs := range headerSites(P, R) {
+		if hs.Fn == cb && strings.EqualFold(hs.KeyConst, "location") && hs.Val != nil {
+			m.CbLocation = hs.Val
 		}
 	}
 	if m.LocationWriter != nil && m.CbLocation == nil {
